@@ -17,3 +17,5 @@ import FpgoVerif.Props.C02
 #print axioms FpgoVerif.C02.C02_int_to_float
 #print axioms FpgoVerif.C02.C02_table_float_to_uintptr
 #print axioms FpgoVerif.C02.C02_float_to_uintptr
+#print axioms FpgoVerif.C02.C02_table_string_to_int
+#print axioms FpgoVerif.C02.C02_string_to_int
